@@ -275,6 +275,11 @@ Theo::MacroExtractionResult Theo::extract_macros(
 
 /* macro application */
 
+#ifdef THEO_IDE_LIBTHEO_VERIF
+thread_local std::function<void(const Theo::VerifRewriteEvent &)>
+    Theo::verif_rewrite_hook;
+#endif
+
 struct MacroDetector {
   struct Response {
     // index of first token that was matched
@@ -528,6 +533,11 @@ Theo::MacroApplicationResult Theo::apply_macros(
                     input.begin() + it->second.location + it->second.length);
         input.insert(input.begin() + it->second.location, replacement.begin(),
                      replacement.end());
+#ifdef THEO_IDE_LIBTHEO_VERIF
+        if (verif_rewrite_hook)
+          verif_rewrite_hook({pass, &it->first.md, it->second.location,
+                              it->second.length, input.size(), &input});
+#endif
       }
 
       if (changed) break;  // start over : attempt high priority macros again
